@@ -27,6 +27,7 @@
 //! * `C07.bound`             the critical section in which a soft-limited call looks its key up (gets its handle /
 //!                           inserts the placeholder) leaves more than max(N, entries that were locked or
 //!                           valueless before + 1) entries
+//! * `C03.try_waits`         a try variant is waiting for its key's mutex
 //! * `C05.spurious_try_fail` the `try_lock` of a try variant failed although the key's mutex was free (neither
 //!                           held nor handed to a waiter) in the state the try ran in
 
@@ -219,6 +220,16 @@ impl Monitors {
         }
         if !seg.snap.gone && !seg.mid_cs {
             self.check_snapshot(seg);
+        }
+        // C03: try variants never wait (a try-variant call whose future is pending on a key mutex)
+        for a in &seg.blocked {
+            if let Some(v) = seg.agents.iter().find(|v| v.aid == *a) {
+                if let AgentKind::Lock { sh, key, .. } = &v.kind {
+                    if sh.is_try() && v.alive && !v.in_callback {
+                        self.hit("C03.try_waits", format!("agent {} (a try variant) is waiting for key {}", a, key));
+                    }
+                }
+            }
         }
         if !seg.mid_cs && (seg.snap.poisoned || seg.snap.glock_held) {
             self.lib_failed = true;
